@@ -120,34 +120,14 @@ func (g *kvGen) iterArgs() (string, string) {
 
 func (g *kvGen) batchOps() string { return g.batchOpsFor("", false) }
 
-// replayLosesEmpty: a batch created on store s ends in a goleveldb batch. Its Replay hands an empty
-// value to the writer as nil, which a flushable writer takes for a deletion (and kvdb/leveldb's
-// Replay swallows the writer's error): reported as a defect candidate, not generated.
-func (g *kvGen) replayLosesEmpty(s string) bool {
-	if g.backend != "ldb" {
-		return false
-	}
-	for x := s; x != ""; x = g.parent[x] {
-		if g.isFlush[x] {
-			return false
-		}
-	}
-	return true
-}
-
 func (g *kvGen) batchOpsFor(s string, replay bool) string {
 	n := 1 + g.r.Intn(5)
-	noEmpty := replay && g.replayLosesEmpty(s)
 	var parts []string
 	for i := 0; i < n; i++ {
 		if g.r.Chance(1, 3) {
 			parts = append(parts, "d:"+HexOf(g.key()))
 		} else {
-			v := g.val()
-			if noEmpty && v == "-" {
-				v = "00"
-			}
-			parts = append(parts, "p:"+HexOf(g.key())+":"+v)
+			parts = append(parts, "p:"+HexOf(g.key())+":"+g.val())
 		}
 	}
 	return strings.Join(parts, ",")
@@ -181,7 +161,8 @@ func (g *kvGen) dataOp(w *bufio.Writer, s string) {
 			mode := "r"
 			if g.sharesMutex(s, tg) {
 				// syncedBatch.Replay holds the store's mutex while it calls the writer: replaying into a
-				// store behind the same mutex dead-locks (reported as a defect candidate, not generated)
+				// store behind the same mutex dead-locks (known finding, kept as corpus/kv/synced-replay-self.ops,
+				// not generated at random)
 				mode = "rb"
 			}
 			fmt.Fprintf(w, "batch %s %s %s %s\n", s, mode, tg, g.batchOpsFor(s, true))
